@@ -54,6 +54,10 @@ TruthsR == {BaseG(25, 0, TC0, <<Cue(<<0, 0, 1, 0>>, <<0, 0, 2, 0>>, vp, jc, rows
               vp \in (IF Wide THEN {0, 1, 12, 23, 99} ELSE {0, 12, 99}), jc \in 0..3,
               rows \in {<<r>> : r \in Runs1 \cup Runs2} \cup {<<r1, r2>> : r1 \in (IF Wide THEN Runs1 \cup Runs2 ELSE Runs1), r2 \in Runs1}}
 
+\* a text that fills the 112-byte text field to its last byte, and one that leaves a single byte of padding
+Filled(n) == [i \in 1..n |-> 65 + (i % 26)]
+TruthsFull == {BaseG(25, 0, TC0, <<Cue(<<0, 0, 1, 0>>, <<0, 0, 2, 0>>, 20, 2, <<<<PlainRun(Filled(n))>>>>)>>) : n \in {111, 112}}
+
 \* X: teletext display standards
 TRow(a, col, dh) == <<Run(<<X, a, Y>>, 0, 0, 0, col, dh)>>
 TruthsX == {BaseG(25, dsc, TC0, <<Cue(<<0, 0, 1, 0>>, <<0, 0, 2, 0>>, vp, 2, rows)>>) :
@@ -72,7 +76,7 @@ TruthsM == {[fps |-> fps, dsc |-> dsc, tcp |-> TC0, meta |-> m,
                         Cue(<<0, 0, 3, 0>>, <<0, 0, 4, 12>>, 20, 1, <<IF dsc = 0 THEN <<PlainRun(<<Y>>)>> ELSE TRow(66, -1, 0)>>)>>] :
               fps \in {25, 30}, dsc \in {0, 1}, m \in Metas}
 
-Truths(fam) == CASE fam = "T" -> TruthsTOK [] fam = "R" -> TruthsR [] fam = "X" -> TruthsX [] fam = "M" -> TruthsM [] fam = "K" -> {p.g : p \in PairsK}
+Truths(fam) == CASE fam = "T" -> TruthsTOK [] fam = "R" -> TruthsR \cup TruthsFull [] fam = "X" -> TruthsX [] fam = "M" -> TruthsM [] fam = "K" -> {p.g : p \in PairsK}
 Pairs(fam) == IF fam = "K" THEN PairsK ELSE UNION {{[g |-> t, d |-> D] : D \in Renderings(t)} : t \in Truths(fam)}
 
 Init == \E p \in Pairs(FAM) : g = p.g /\ d = p.d /\ phase = "done"
